@@ -47,7 +47,7 @@ def main():
             mini = driver.minimise(eng, first[k])
             print("   run", mini["run"], "init", json.dumps({a: mini["init"][a] for a in ("shape", "subs", "vals") if a in mini["init"]}))
             for s in mini["steps"]:
-                print("   step", json.dumps(s))
+                print("   step", json.dumps(s)[:400])
             print("   ->", mini["violation"]["detail"][:700])
             dump = os.environ.get("TRIAGE_DUMP")
             if dump:
